@@ -1,4 +1,5 @@
 import VivProofs.SchedRun
+import VivProofs.SchedContig
 /-!
 # C02 — the timestep handed to a process equals the simulated interval it covers
 
@@ -97,6 +98,59 @@ theorem drained_after_update (c : Cfg) (hb : PosBeh c.beh) (interval : Nat) (s s
   simp only [hnp' pf hpf, hns pf hpf] at h1
   simp [hnp' pf hpf, h1]
 
+/-- **Contiguous, non-overlapping intervals from the time of entry**: in every reachable state and
+for every process, the contiguity walker (`VivProofs/SchedContig.lean`) accepts the whole log,
+starting from the time `t0` at which the process entered, and stands at the front's time: every
+`next_update` call starts exactly where the previous interval (or the span the process was carried
+over while its update condition was false) ended, covers `[start, start + ts]` with `0 < ts`, and
+nothing is simulated twice or skipped. -/
+theorem intervals_contiguous (c : Cfg) (hb : PosBeh c.beh) (t0 : Int) (pids : List Pid)
+    (hnd : pids.Nodup) (layers : List (List Sid)) (store : Store) (calls : List (Nat × Bool))
+    (hpos : ∀ cf ∈ calls, 0 < cf.1) (s' : St)
+    (hrun : runCalls c calls (init c t0 pids layers store) = some s') :
+    ∀ pf ∈ s'.fronts, contigLog pf.1 t0 s'.log = some pf.2.time := by
+  have h := runCalls_preserves c hb (fun s => Paired s ∧ Contig t0 s) (fun s t hp => hp)
+    (fun endT s force hp hinv hlt =>
+      ⟨iter_paired c hb endT s force hp.1 hinv hlt, iter_contig c hb t0 endT force s hinv hlt hp.1.1 hp.2⟩)
+    calls _ s' hrun ⟨init_paired c t0 pids layers store hnd, init_contig c t0 pids layers store⟩
+    (init_inv c t0 pids layers store) hpos
+  exact h.1.2
+
+/-- **The timesteps handed to a process sum to the simulated time elapsed for it**: timesteps of
+all its `next_update` calls plus the spans it was carried over while quiet equal the distance from
+its entry to the time it has been simulated to; each call in the log starts where the walker
+stands (`start`), so the intervals tile that distance. -/
+theorem timesteps_sum_to_elapsed (c : Cfg) (hb : PosBeh c.beh) (t0 : Int) (pids : List Pid)
+    (hnd : pids.Nodup) (layers : List (List Sid)) (store : Store) (calls : List (Nat × Bool))
+    (hpos : ∀ cf ∈ calls, 0 < cf.1) (s' : St)
+    (hrun : runCalls c calls (init c t0 pids layers store) = some s')
+    (p : Pid) (f : Front) (hp : (p, f) ∈ s'.fronts) :
+    handed p s'.log + carried p s'.log = f.time - t0 ∧
+    ∀ pre post n g start ts due view u, s'.log = pre ++ Ev.invoke p n g start ts due view u :: post →
+      contigLog p t0 pre = some start ∧ start + ts = due ∧ 0 < ts := by
+  have h := intervals_contiguous c hb t0 pids hnd layers store calls hpos s' hrun (p, f) hp
+  refine ⟨(ck_sum p s'.log t0 f.time h).symm, ?_⟩
+  intro pre post n g start ts due view u hsplit
+  unfold contigLog at h
+  rw [hsplit] at h
+  have := ck_invoke_starts p pre post t0 f.time n g start ts due view u h
+  exact ⟨this.1, this.2.1, this.2.2.1⟩
+
+/-- after `update()` the sum is exactly the global time elapsed since entry -/
+theorem timesteps_sum_after_update (c : Cfg) (hb : PosBeh c.beh) (t0 : Int) (pids : List Pid)
+    (hnd : pids.Nodup) (layers : List (List Sid)) (store : Store) (calls : List (Nat × Bool))
+    (hpos : ∀ cf ∈ calls, 0 < cf.1) (s' : St)
+    (hrun : runCalls c calls (init c t0 pids layers store) = some s')
+    (hdrained : checkComplete s' = true)
+    (p : Pid) (f : Front) (hp : (p, f) ∈ s'.fronts) :
+    handed p s'.log + carried p s'.log = s'.gt - t0 := by
+  have h := (timesteps_sum_to_elapsed c hb t0 pids hnd layers store calls hpos s' hrun p f hp).1
+  unfold checkComplete at hdrained
+  rw [List.all_eq_true] at hdrained
+  have := hdrained (p, f) hp
+  simp at this
+  omega
+
 /-- nothing is pending between calls, whatever `force_complete` was -/
 theorem noPending_after_runFor (c : Cfg) (hb : PosBeh c.beh) (interval : Nat) (force : Bool)
     (s s' : St) (hinv : Inv s) (hnp : NoPending s) (hpos : 0 < interval)
@@ -117,6 +171,11 @@ def exCfg : Cfg :=
 example :
     ((runCalls exCfg [(10, true)] (init exCfg 0 [["p"]] [] [("clock", 0)])).map
       (fun s => (readVar s.store "clock", checkComplete s))) = some (10, true) := by
+  rfl
+
+example :
+    ((runCalls exCfg [(10, true)] (init exCfg 0 [["p"]] [] [("clock", 0)])).map
+      (fun s => (contigLog ["p"] 0 s.log, handed ["p"] s.log, carried ["p"] s.log))) = some (some 10, 10, 0) := by
   rfl
 
 end VivProps.C02
